@@ -33,6 +33,7 @@ type vService struct {
 	probe  bool // declares a node-shaped root field with another name
 	marked bool // its Node type T also implements the interface Marked, which only this service declares
 	probe2 bool // declares a root field that returns Node but takes more than the id
+	mut    bool // declares the mutation root field m__p (a root type some services lack)
 	noroot bool // a pure extension service: its Query holds nothing but node, all it contributes are fields of the Node type T
 	idx    int
 }
@@ -171,6 +172,9 @@ func (s vService) sdl() string {
 	case "scalar":
 		b.WriteString("scalar T\n")
 	}
+	if s.mut {
+		b.WriteString("type Mutation { m__p: Int }\n")
+	}
 	if s.noroot {
 		b.WriteString("type Query { node(id: ID!): Node }\n")
 		return b.String()
@@ -234,7 +238,7 @@ func vFieldNames(fs []vField) []string {
 
 // vConflict says whether two services cannot be combined (the list of C05), and why
 func vConflict(a, b vService) string {
-	if (a.dup && b.dup) || (a.probe2 && b.probe2) {
+	if (a.dup && b.dup) || (a.probe2 && b.probe2) || (a.mut && b.mut) {
 		return "same root field declared twice"
 	}
 	ta, tb := a.t, b.t
@@ -357,9 +361,16 @@ func vPickServices() []vService {
 	vSlim = verifParam("slim", 0) == 1
 	vPlain = verifParam("plainid", 0) == 1
 	svcs := make([]vService, S)
+	// which services declare Mutation.m__p: none, the first, the first and the last (with a service
+	// without any Mutation type in between when there are three), the last two
+	mutpat := 0
+	if vSlim {
+		mutpat = verifChoice("mutpat", 4)
+	}
 	for i := range svcs {
 		tag := "s" + verifItoa(i)
 		svcs[i] = vService{idx: i, t: vPickType(tag, kinds)}
+		svcs[i].mut = (mutpat == 1 && i == 0) || (mutpat == 2 && (i == 0 || i == S-1)) || (mutpat == 3 && i >= S-2)
 		if vSlim || vPlain {
 			// slim descriptors: no root-field toggles
 			svcs[i].node = true
@@ -440,8 +451,13 @@ func VerifMerge() {
 		return
 	}
 
-	if conflict != "" || berr != nil {
-		return // C03 and C04 speak about successful merges of mergeable sets
+	if berr != nil {
+		return // C03 and C04 speak about successful merges
+	}
+	if conflict != "" {
+		// a set C05 wants refused was merged all the same: what C03 and C04 say about successful merges
+		// applies to it (a merge that silently prefers one side loses the other side's declarations)
+		verifReach("conflicting set accepted")
 	}
 	sc := base.Schema
 	if prop == 3 {
@@ -462,6 +478,9 @@ func VerifMerge() {
 			}
 			if s.dup {
 				verifAssert(sc.Types["Query"].Fields.ForName("du__p") != nil, "every root field of every service is in the gateway schema (du__p)")
+			}
+			if s.mut {
+				verifAssert(sc.Types["Mutation"] != nil && sc.Types["Mutation"].Fields.ForName("m__p") != nil, "every root field of every service is in the gateway schema (Mutation.m__p)")
 			}
 			if t.kind == "" {
 				continue
@@ -581,6 +600,10 @@ func VerifMerge() {
 		if s.dup {
 			ud, okd := tm.Get("Query", "du__p")
 			verifAssert(okd && ud == "svc"+verifItoa(s.idx), "every root field is routed to the service that declared it (du__p)")
+		}
+		if s.mut {
+			um, okm := tm.Get("Mutation", "m__p")
+			verifAssert(okm && um == "svc"+verifItoa(s.idx), "every root field is routed to the service that declared it (Mutation.m__p)")
 		}
 		if s.t.kind == "object" {
 			for _, f := range s.t.fields {
